@@ -855,4 +855,489 @@ theorem Forest.level_unique (f : Forest) (hn : f.idl.Nodup) (n m : Nat) (i j : I
     · exact Forest.level_unique f h2 n m i j hi hj hid
 end
 
+
+/-! ### the invariants between the stages -/
+
+/-- pending nodes (Fresh, PreProcessed, Archived) only on level `d` -/
+def PendOnly (t : Tree) (d : Nat) : Prop := ∀ n, ∀ i ∈ t.atLevel n, i.st.pending = true → n = d
+
+/-- the tree at the start of a pass -/
+structure Start (R d : Nat) (t : Tree) : Prop where
+  depth : t.maxDepth = d
+  ids : t.idl.Nodup
+  pend : PendOnly t d
+  fresh : ∀ i ∈ t.atLevel d, i.st = .fresh
+  rank : t.rk R 0 0 none = true
+
+/-- the tree between two stages of the pass working on level `d`: the nodes of level `d` have a status in `P` -/
+structure Mid (R d : Nat) (P : Status → Prop) (t : Tree) : Prop where
+  ids : t.idl.Nodup
+  rank : t.rk R 0 0 none = true
+  top : t.atLevel (d + 1) = []
+  pend : PendOnly t d
+  lev : ∀ i ∈ t.atLevel d, P i.st
+
+/-- the seed itself was rejected or has nothing left to do: the finisher will let it go -/
+def RootDone (t : Tree) : Prop := t.st = .completed ∨ t.st = .failed
+
+theorem Start.toMid {R d : Nat} {t : Tree} (h : Start R d t) : Mid R d (· = .fresh) t :=
+  ⟨h.ids, h.rank, atLevel_above_nil t (d + 1) (by rw [h.depth]; omega), h.pend, h.fresh⟩
+
+theorem Mid.weaken {R d : Nat} {P Q : Status → Prop} {t : Tree} (h : Mid R d P t) (hpq : ∀ s, P s → Q s) : Mid R d Q t :=
+  ⟨h.ids, h.rank, h.top, h.pend, fun i hi => hpq _ (h.lev i hi)⟩
+
+theorem mid_setNorm {R d : Nat} {P : Status → Prop} {t : Tree} (ks : List (String × NormRes)) (h : Mid R d P t) :
+    Mid R d P (t.setNorm ks) := by
+  have hst : ∀ i, (normInfo ks i).st = i.st := by intro i; unfold normInfo; split <;> rfl
+  refine ⟨by rw [Tree.idl_setNorm]; exact h.ids, Tree.rk_setNorm ks R 0 0 none t h.rank, ?_, ?_, ?_⟩
+  · rw [Tree.atLevel_setNorm, h.top]; rfl
+  · intro n j hj hp
+    rw [Tree.atLevel_setNorm] at hj
+    obtain ⟨i, hi, rfl⟩ := List.mem_map.1 hj
+    exact h.pend n i hi (by rw [← hst i]; exact hp)
+  · intro j hj
+    rw [Tree.atLevel_setNorm] at hj
+    obtain ⟨i, hi, rfl⟩ := List.mem_map.1 hj
+    rw [hst i]; exact h.lev i hi
+
+theorem mid_prune {R d : Nat} {P : Status → Prop} {t : Tree} (rm : List String) (h : Mid R d P t) : Mid R d P (t.prune rm) := by
+  refine ⟨idl_prune_nodup rm t h.ids, Tree.rk_prune rm R 0 0 none t h.rank, ?_, ?_, ?_⟩
+  · apply List.eq_nil_iff_forall_not_mem.2
+    intro j hj
+    have := Tree.atLevel_prune_all rm t (d + 1) j hj
+    rw [h.top] at this; cases this
+  · intro n j hj hp; exact h.pend n j (Tree.atLevel_prune_all rm t n j hj) hp
+  · intro j hj; exact h.lev j (Tree.atLevel_prune_all rm t d j hj)
+
+theorem mid_mark {R d : Nat} {P : Status → Prop} {t : Tree} (F : IF) (hF : okSets F = true) (h : Mid R d P t)
+    (hP : ∀ s, P s → s ≠ .gotChildren ∧ s ≠ .gotRedirected) : Mid R d P (t.mark F) := by
+  refine ⟨by rw [idl_mark]; exact h.ids, Tree.rk_mark F R 0 0 none t h.rank, (atLevel_mark_nil_iff F t _).2 h.top, ?_, ?_⟩
+  · intro n j hj hp
+    obtain ⟨i, hi, hs⟩ := Tree.atLevel_mark F hF t n j hj
+    rcases hs with hs | ⟨hs, _⟩
+    · exact h.pend n i hi (by rw [← hs]; exact hp)
+    · rw [hs] at hp; cases hp
+  · intro j hj
+    obtain ⟨i, hi, hs⟩ := Tree.atLevel_mark F hF t d j hj
+    rcases hs with hs | ⟨_, hs⟩
+    · rw [hs]; exact h.lev i hi
+    · have := hP _ (h.lev i hi)
+      rcases hs with hs | hs
+      · exact absurd hs this.1
+      · exact absurd hs this.2
+
+theorem mid_dedupe {R d : Nat} {t : Tree} (F : IF) (hF : okSets F = true) (h : Mid R d (· = .fresh) t) :
+    Mid R d (· = .fresh) (dedupe F t) := by
+  unfold dedupe
+  exact mid_mark F hF (mid_prune _ h) (by intro s hs; subst hs; simp)
+
+theorem setRoot_done (t : Tree) (s : Status) (hs : s = .completed ∨ s = .failed) : RootDone (setRoot t s) := by
+  match t with | .node i k => simpa [RootDone, setRoot, Tree.st, Tree.info] using hs
+
+/-- marking nodes Seen (wherever their id occurs) -/
+theorem mid_seen {R d : Nat} {t : Tree} (l : List String) (h : Mid R d (· = .fresh) t) :
+    Mid R d (fun s => s = .fresh ∨ s = .seen) (t.setStatuses l .seen false) := by
+  refine ⟨by rw [Tree.idl_setStatuses]; exact h.ids, Tree.rk_setStatuses l .seen false (by simp) R 0 0 none t h.rank, ?_, ?_, ?_⟩
+  · rw [Tree.atLevel_setStatuses, h.top]; rfl
+  · intro n j hj hp
+    rw [Tree.atLevel_setStatuses] at hj
+    obtain ⟨i, hi, rfl⟩ := List.mem_map.1 hj
+    unfold stamp at hp
+    split at hp
+    · cases hp
+    · exact h.pend n i hi hp
+  · intro j hj
+    rw [Tree.atLevel_setStatuses] at hj
+    obtain ⟨i, hi, rfl⟩ := List.mem_map.1 hj
+    unfold stamp
+    split
+    · exact Or.inr rfl
+    · exact Or.inl (h.lev i hi)
+
+/-- the Fresh nodes of level `d` become PreProcessed -/
+theorem mid_requests {R d : Nat} {t : Tree} (h : Mid R d (fun s => s = .fresh ∨ s = .seen) t) :
+    Mid R d (fun s => s = .preProcessed ∨ s = .seen)
+      (t.setStatuses (((t.atLevel d).filter (fun i => i.st == .fresh)).map (·.id)) .preProcessed true) := by
+  refine ⟨by rw [Tree.idl_setStatuses]; exact h.ids, Tree.rk_setStatuses _ .preProcessed true (by simp) R 0 0 none t h.rank, ?_, ?_, ?_⟩
+  · rw [Tree.atLevel_setStatuses, h.top]; rfl
+  · intro n j hj hp
+    rw [Tree.atLevel_setStatuses] at hj
+    obtain ⟨i, hi, rfl⟩ := List.mem_map.1 hj
+    unfold stamp at hp
+    split at hp
+    · rename_i hc
+      simp only [List.contains_eq_mem, List.mem_map, List.mem_filter, decide_eq_true_eq] at hc
+      obtain ⟨f, ⟨hf, _⟩, hid⟩ := hc
+      exact Tree.level_unique t h.ids n d i f hi hf hid.symm
+    · exact h.pend n i hi hp
+  · intro j hj
+    rw [Tree.atLevel_setStatuses] at hj
+    obtain ⟨i, hi, rfl⟩ := List.mem_map.1 hj
+    unfold stamp
+    split
+    · exact Or.inl rfl
+    · rename_i hc
+      rcases h.lev i hi with hs | hs
+      · exfalso; apply hc
+        simp only [List.contains_eq_mem, List.mem_map, List.mem_filter, decide_eq_true_eq]
+        exact ⟨i, ⟨hi, by simp [hs]⟩, rfl⟩
+      · exact Or.inr hs
+
+
+/-! ### preprocess -/
+
+theorem verdict_fresh (cfg : Cfg) (norm : String → Option NormRes) (t : Tree) (i : Info) (hf : i.st = .fresh) :
+    (∃ r, verdict cfg norm t i = .keep r) ∨ verdict cfg norm t i = .remove ∨ verdict cfg norm t i = .stop .failed ∨
+      verdict cfg norm t i = .stop .completed := by
+  cases hv : verdict cfg norm t i with
+  | keep r => exact Or.inl ⟨r, rfl⟩
+  | remove => exact Or.inr (Or.inl rfl)
+  | panic =>
+    exfalso
+    unfold verdict at hv
+    simp only [hf, bne_self_eq_false, Bool.false_eq_true, if_false] at hv
+    split at hv
+    · split at hv <;> cases hv
+    · skip
+      split at hv
+      · split at hv <;> cases hv
+      · split at hv <;> cases hv
+  | stop st =>
+    unfold verdict at hv
+    simp only [hf, bne_self_eq_false, Bool.false_eq_true, if_false] at hv
+    split at hv
+    · split at hv
+      · cases hv; exact Or.inr (Or.inr (Or.inl rfl))
+      · cases hv
+    · skip
+      split at hv
+      · split at hv
+        · cases hv
+        · cases hv; exact Or.inr (Or.inr (Or.inr rfl))
+      · split at hv <;> cases hv
+
+/-- with only Fresh nodes on the working level, the first loop of `preprocess` runs through or stops at the seed -/
+theorem scan_flag (cfg : Cfg) (norm : String → Option NormRes) (t : Tree) (items : List Info) (hf : ∀ i ∈ items, i.st = .fresh) :
+    (scan cfg norm t items).2.2 = none ∨ (scan cfg norm t items).2.2 = some (.stop .failed) ∨
+      (scan cfg norm t items).2.2 = some (.stop .completed) := by
+  induction items with
+  | nil => exact Or.inl rfl
+  | cons i rest ih =>
+    have ih' := ih (fun j hj => hf j (by simp [hj]))
+    rcases verdict_fresh cfg norm t i (hf i (by simp)) with ⟨r, hv⟩ | hv | hv | hv
+    · simp only [scan, hv]; exact ih'
+    · simp only [scan, hv]; exact ih'
+    · simp only [scan, hv]; exact Or.inr (Or.inl trivial)
+    · simp only [scan, hv]; exact Or.inr (Or.inr trivial)
+
+/-- the last steps of `preprocess`: mark the nodes the seen-store reported, give the others a request -/
+theorem finalStep_spec {R d : Nat} {t2 : Tree} (sr : Seen × List String) (h : Mid R d (· = .fresh) t2) :
+    let c := finalStep t2 sr d
+    c.2.2.2 = .ok ∧
+    (RootDone (if c.2.2.1.isEmpty then c.1 else c.1.setStatuses c.2.2.1 .preProcessed true) ∨
+     Mid R d (fun s => s = .preProcessed ∨ s = .seen) (if c.2.2.1.isEmpty then c.1 else c.1.setStatuses c.2.2.1 .preProcessed true)) := by
+  have h3 := mid_seen sr.2 h
+  unfold finalStep
+  simp only
+  split
+  · simp only [List.isEmpty_nil, if_true, true_and]
+    exact Or.inl (setRoot_done _ _ (Or.inl rfl))
+  · rename_i hne
+    refine ⟨rfl, Or.inr ?_⟩
+    simp only
+    have hne' : ((((t2.setStatuses sr.2 .seen false).atLevel d).filter (fun i => i.st == .fresh)).map (·.id)).isEmpty = false := by
+      simpa using hne
+    simp only [hne', Bool.false_eq_true, if_false]
+    exact mid_requests h3
+
+theorem preTail_spec {R d : Nat} (S : SF) (hg : (S.preSeencheckGuard == "always") = false) (cfg : Cfg) (seen : Seen) {t2 : Tree}
+    (h : Mid R d (· = .fresh) t2) :
+    let c := preTail S cfg seen t2 d
+    c.2.2.2 = .ok ∧
+    (RootDone (if c.2.2.1.isEmpty then c.1 else c.1.setStatuses c.2.2.1 .preProcessed true) ∨
+     Mid R d (fun s => s = .preProcessed ∨ s = .seen) (if c.2.2.1.isEmpty then c.1 else c.1.setStatuses c.2.2.1 .preProcessed true)) := by
+  unfold preTail
+  simp only
+  split
+  · simp only [List.isEmpty_nil, if_true, true_and]
+    exact Or.inl (setRoot_done _ _ (Or.inl rfl))
+  · split
+    · exact finalStep_spec _ h
+    · simp only [hg, Bool.false_or]
+      split
+      · rename_i hc
+        simp at hc
+      · exact finalStep_spec _ h
+
+/-- **preprocess.** From the start-of-pass shape, `preprocess` neither panics nor crashes; afterwards either the seed itself
+is done (rejected, or nothing left to fetch), or every node of the working level is PreProcessed or Seen and nothing else
+in the tree is pending. -/
+theorem pre_spec (S : SF) (I : IF) (hI : okSets I = true) (hg : (S.preSeencheckGuard == "always") = false) (cfg : Cfg)
+    (norm : String → Option NormRes) (seen : Seen) {R d : Nat} {t : Tree} (h : Start R d t) :
+    let p := preprocess S I cfg norm seen t
+    p.2.2 = .ok ∧ (RootDone p.1 ∨ Mid R d (fun s => s = .preProcessed ∨ s = .seen) p.1) := by
+  have hm := h.toMid
+  have h1 : Mid R d (· = .fresh) ((t.setNorm (scan cfg norm t (t.atLevel d)).2.1).prune (scan cfg norm t (t.atLevel d)).1) :=
+    mid_prune _ (mid_setNorm _ hm)
+  unfold preprocess preCore
+  simp only [h.depth]
+  rcases scan_flag cfg norm t (t.atLevel d) h.fresh with hf | hf | hf
+  · simp only [hf]
+    exact preTail_spec S hg cfg seen (mid_dedupe I hI h1)
+  · simp only [hf, List.isEmpty_nil, if_true, true_and]
+    exact Or.inl (setRoot_done _ _ (Or.inr rfl))
+  · simp only [hf, List.isEmpty_nil, if_true, true_and]
+    exact Or.inl (setRoot_done _ _ (Or.inl rfl))
+
+
+/-! ### archive -/
+
+theorem Tree.atLevel_zero (t : Tree) : t.atLevel 0 = [t.info] := by
+  match t with | .node i k => rfl
+
+theorem archive_root (srv : String → Option Outcome) (t : Tree) : (archive srv t).info = archInfo srv (0 == t.maxDepth) t.info := by
+  have h := Tree.atLevel_archive srv t.maxDepth 0 t 0
+  rw [Tree.atLevel_zero, Tree.atLevel_zero] at h
+  simpa [archive] using h
+
+theorem archInfo_st_ne (srv : String → Option Outcome) (b : Bool) (i : Info) (h : i.st ≠ .preProcessed) : archInfo srv b i = i := by
+  have : (i.st == Status.preProcessed) = false := by simpa using h
+  simp [archInfo, this]
+
+theorem archive_rootDone (srv : String → Option Outcome) (t : Tree) (h : RootDone t) : RootDone (archive srv t) := by
+  unfold RootDone Tree.st at *
+  rw [archive_root, archInfo_st_ne]
+  · exact h
+  · rcases h with h | h <;> rw [h] <;> simp
+
+theorem arch_spec (srv : String → Option Outcome) {R d : Nat} {t : Tree} (h : Mid R d (fun s => s = .preProcessed ∨ s = .seen) t) :
+    Mid R d (fun s => s = .archived ∨ s = .failed ∨ s = .seen) (archive srv t) := by
+  unfold archive
+  refine ⟨by rw [Tree.idl_archive]; exact h.ids, Tree.rk_archive srv _ 0 R 0 0 none t h.rank, ?_, ?_, ?_⟩
+  · rw [Tree.atLevel_archive, h.top]; rfl
+  · intro n j hj hp
+    rw [Tree.atLevel_archive] at hj
+    obtain ⟨i, hi, rfl⟩ := List.mem_map.1 hj
+    by_cases hpp : i.st = .preProcessed
+    · exact h.pend n i hi (by rw [hpp]; rfl)
+    · rw [archInfo_st_ne srv _ i hpp] at hp
+      exact h.pend n i hi hp
+  · intro j hj
+    rw [Tree.atLevel_archive] at hj
+    obtain ⟨i, hi, rfl⟩ := List.mem_map.1 hj
+    have hmd : t.maxDepth = d := maxDepth_eq_of_levels t d (List.ne_nil_of_mem hi) h.top
+    rcases h.lev i hi with hs | hs
+    · have hb : (0 + d == t.maxDepth) = true := by simp [hmd]
+      have hs' : (i.st == Status.preProcessed) = true := by simp [hs]
+      simp only [archInfo, hb, hs', Bool.and_self, if_true]
+      split
+      · split
+        · exact Or.inr (Or.inl rfl)
+        · exact Or.inl rfl
+      · exact Or.inr (Or.inl rfl)
+    · rw [archInfo_st_ne srv _ i (by rw [hs]; simp)]
+      exact Or.inr (Or.inr hs)
+
+/-! ### postprocess -/
+
+theorem post_root_st (S : SF) (cfg : Cfg) (ex : String → Extract) (d lvl : Nat) (pdnr : Int) (isSeed : Bool) (t : Tree)
+    (h : t.st ≠ .archived) : (t.post S cfg ex d lvl pdnr isSeed).1.st = t.st := by
+  match t with
+  | .node i k =>
+    simp only [Tree.st, Tree.info] at h
+    have hna : (i.st == Status.archived) = false := by simpa using h
+    unfold Tree.post
+    split
+    · simp only [hna, Bool.false_eq_true, if_false]; rfl
+    · show (match Forest.post S cfg ex d (lvl + 1) (nodeDnr isSeed i.st pdnr) k with
+        | (k', outs) => ((Tree.node { i with body := false } k', outs) : Tree × List Outlink)).1.st = _
+      cases Forest.post S cfg ex d (lvl + 1) (nodeDnr isSeed i.st pdnr) k with
+      | mk k' outs => rfl
+
+theorem post_rootDone (S : SF) (cfg : Cfg) (ex : String → Extract) (t : Tree) (h : RootDone t) : RootDone (postprocess S cfg ex t).1 := by
+  unfold RootDone postprocess at *
+  rw [post_root_st]
+  · exact h
+  · rcases h with h | h <;> rw [h] <;> simp
+
+/-- **postprocess.** Afterwards nothing is pending except new Fresh children one level further down. -/
+theorem post_spec (S : SF) (hS : okPost S = true) (cfg : Cfg) (hdc : cfg.domainsCrawl = false) (ex : String → Extract) {d : Nat} {t : Tree}
+    (h : Mid cfg.maxRedirect d (fun s => s = .archived ∨ s = .failed ∨ s = .seen) t)
+    (hid : (postprocess S cfg ex t).1.idl.Nodup) :
+    Mid cfg.maxRedirect (d + 1) (· = .fresh) (postprocess S cfg ex t).1 := by
+  have hw : t.maxDepth ≤ d := by
+    have := (Tree.atLevel_nil_iff t (d + 1)).1 h.top
+    omega
+  have hempt : t.atLevel (t.maxDepth + 1 - 0) = [] := atLevel_above_nil t _ (by omega)
+  have hfrom := Tree.atLevel_post S hS cfg ex t.maxDepth 0 0 true t hempt (Nat.zero_le _)
+  -- an Archived node on the working level forces the working level to be `d`
+  have harch : ∀ m, ∀ i ∈ t.atLevel m, i.st = .archived → m = d := fun m i hi hs => h.pend m i hi (by rw [hs]; rfl)
+  have key : ∀ n, ∀ j ∈ (postprocess S cfg ex t).1.atLevel n, j.st.pending = true → n = d + 1 ∧ j.st = .fresh := by
+    intro n j hj hp
+    rcases hfrom n j hj with ⟨i, hi, hc⟩ | ⟨h1, h2, m, hm, i, hi, h3⟩
+    · split at hc
+      · rcases hc with hc | hc | hc <;> rw [hc] at hp <;> cases hp
+      · rename_i hcond
+        rw [hc] at hp
+        have hnd := h.pend n i hi hp
+        subst hnd
+        have hmd : t.maxDepth = n := maxDepth_eq_of_levels t n (List.ne_nil_of_mem hi) h.top
+        rcases h.lev i hi with hs | hs | hs
+        · exact absurd ⟨by omega, hs⟩ hcond
+        · rw [hs] at hp; cases hp
+        · rw [hs] at hp; cases hp
+    · have := harch m i hi h3
+      exact ⟨by omega, h2⟩
+  refine ⟨hid, ?_, ?_, fun n j hj hp => (key n j hj hp).1, ?_⟩
+  · refine Tree.rk_post S hS cfg hdc ex t.maxDepth 0 0 true 0 0 none t hempt (Nat.zero_le _) ?_ h.rank
+    simp only [aLevel, nodeDnr, if_true]
+    by_cases hg : t.info.st = .gotRedirected <;> simp [hg]
+  · apply List.eq_nil_iff_forall_not_mem.2
+    intro j hj
+    rcases hfrom (d + 1 + 1) j hj with ⟨i, hi, _⟩ | ⟨h1, _, m, hm, i, hi, h3⟩
+    · have : t.atLevel (d + 1 + 1) = [] := atLevel_above_nil t _ (by omega)
+      rw [this] at hi; cases hi
+    · omega
+  · intro j hj
+    rcases hfrom (d + 1) j hj with ⟨i, hi, _⟩ | ⟨_, h2, _⟩
+    · rw [h.top] at hi; cases hi
+    · exact h2
+
+/-! ### finisher -/
+
+mutual
+theorem Tree.anyPending_of_levels (t : Tree) (h : ∀ n, ∀ i ∈ t.atLevel n, i.st.pending = false) : t.anyPending = false := by
+  match t with
+  | .node i k =>
+    simp only [Tree.anyPending, Bool.or_eq_false_iff]
+    exact ⟨h 0 i (by simp [Tree.atLevel]), Forest.anyPending_of_levels k (fun n j hj => h (n + 1) j (by simpa [Tree.atLevel] using hj))⟩
+theorem Forest.anyPending_of_levels (f : Forest) (h : ∀ n, ∀ i ∈ f.atLevel n, i.st.pending = false) : f.anyPending = false := by
+  match f with
+  | .nil => rfl
+  | .cons t f =>
+    simp only [Forest.anyPending, Bool.or_eq_false_iff]
+    exact ⟨Tree.anyPending_of_levels t (fun n j hj => h n j (by simp [Forest.atLevel, hj])),
+      Forest.anyPending_of_levels f (fun n j hj => h n j (by simp [Forest.atLevel, hj]))⟩
+end
+
+theorem fin_rootDone (I : IF) (hI : okSets I = true) (t : Tree) (h : RootDone t) : (finisher I t).2 = .finish := by
+  unfold finisher
+  have hnf : (t.st == Status.fresh) = false := by rcases h with h | h <;> rw [h] <;> rfl
+  have hnw : hasWork I t.st = false := by rw [hasWork_eq I hI]; rcases h with h | h <;> rw [h] <;> rfl
+  simp only [hnf, Bool.false_eq_true, if_false, completeAndCheck, hnw, Bool.not_false, if_true]
+
+/-- **finisher.** After `postprocess`, either the seed is let go, or it is sent round again and its tree is one level
+deeper, in the start-of-pass shape. -/
+theorem fin_spec (I : IF) (hI : okSets I = true) {R d : Nat} {t : Tree} (h : Mid R (d + 1) (· = .fresh) t) :
+    (finisher I t).2 = .finish ∨ ((finisher I t).2 = .feedback ∧ Start R (d + 1) (finisher I t).1) := by
+  have hroot : t.st.pending = false := by
+    cases hp : t.st.pending with
+    | false => rfl
+    | true =>
+      have := h.pend 0 t.info (by rw [Tree.atLevel_zero]; simp) hp
+      omega
+  have hnf : (t.st == Status.fresh) = false := by
+    cases hs : t.st <;> simp_all [Status.pending]
+  unfold finisher
+  simp only [hnf, Bool.false_eq_true, if_false]
+  unfold completeAndCheck
+  split
+  · exact Or.inl (by simp)
+  · simp only
+    by_cases hw : hasWork I (t.mark I).st = false
+    · exact Or.inl (by simp [hw])
+    · have hw : hasWork I (t.mark I).st = true := by simpa using hw
+      refine Or.inr ⟨by simp [hw], ?_⟩
+      have hm := mid_mark I hI h (by intro s hs; subst hs; simp)
+      have hne : t.atLevel (d + 1) ≠ [] := by
+        intro hemp
+        have hnp : t.anyPending = false := by
+          apply Tree.anyPending_of_levels
+          intro n i hi
+          cases hp : i.st.pending with
+          | false => rfl
+          | true =>
+            have := h.pend n i hi hp
+            subst this
+            rw [hemp] at hi; cases hi
+        have := Tree.mark_done I hI t hnp
+        rw [this] at hw; cases hw
+      have hne' : (t.mark I).atLevel (d + 1) ≠ [] := fun hh => hne ((atLevel_mark_nil_iff I t _).1 hh)
+      exact ⟨maxDepth_eq_of_levels _ _ hne' hm.top, hm.ids, hm.pend, hm.lev, hm.rank⟩
+
+
+/-! ### one pass, and the whole life of a seed -/
+
+/-- the nodes created in this pass get ids that are not in use in the tree (ids are UUIDs) -/
+def passIds (S : SF) (I : IF) (cfg : Cfg) (o : Oracle) (seen : Seen) (t : Tree) : Bool :=
+  decide (postprocess S cfg o.ex (archive o.srv (preprocess S I cfg o.norm seen t).1)).1.idl.Nodup
+
+/-- … in every pass of a life -/
+def idsOK (S : SF) (I : IF) (cfg : Cfg) : List Oracle → Seen → Tree → Bool
+  | [], _, _ => true
+  | o :: os, seen, t =>
+    passIds S I cfg o seen t &&
+      (!((pass S I cfg o seen t).act == .feedback) || idsOK S I cfg os (pass S I cfg o seen t).seen (pass S I cfg o seen t).tree)
+
+/-- **One pass.** From the start-of-pass shape, a pass through the four stages never panics, and it ends with the finisher
+letting the seed go, or with the seed sent round again with a tree exactly one level deeper, again in start-of-pass shape. -/
+theorem pass_progress (S : SF) (hS : okPost S = true) (hg : (S.preSeencheckGuard == "always") = false) (I : IF) (hI : okSets I = true)
+    (cfg : Cfg) (hdc : cfg.domainsCrawl = false) (o : Oracle) (seen : Seen) {d : Nat} {t : Tree}
+    (h : Start cfg.maxRedirect d t) (hid : passIds S I cfg o seen t = true) :
+    (pass S I cfg o seen t).pre = .ok ∧
+      ((pass S I cfg o seen t).act = .finish ∨
+       ((pass S I cfg o seen t).act = .feedback ∧ Start cfg.maxRedirect (d + 1) (pass S I cfg o seen t).tree)) := by
+  obtain ⟨hok, hc⟩ := pre_spec S I hI hg cfg o.norm seen h
+  refine ⟨hok, ?_⟩
+  simp only [pass]
+  rcases hc with hc | hc
+  · exact Or.inl (fin_rootDone I hI _ (post_rootDone S cfg o.ex _ (archive_rootDone o.srv _ hc)))
+  · have hid' := of_decide_eq_true hid
+    exact fin_spec I hI (post_spec S hS cfg hdc o.ex (arch_spec o.srv hc) hid')
+
+theorem start_depth_le {R d : Nat} {t : Tree} (h : Start R d t) : d ≤ 4 * R + 3 := by
+  have := rk_depth_bound R t h.rank
+  rw [h.depth] at this; exact this
+
+/-- **Bounded passes.** From a tree of depth `d` in start-of-pass shape, whatever the oracles of the successive passes answer,
+the finisher lets the seed go after at most `4 · max-redirect + 4 - d` passes. -/
+theorem life_bounded (S : SF) (hS : okPost S = true) (hg : (S.preSeencheckGuard == "always") = false) (I : IF) (hI : okSets I = true)
+    (cfg : Cfg) (hdc : cfg.domainsCrawl = false) (os : List Oracle) :
+    ∀ (seen : Seen) (d : Nat) (t : Tree), Start cfg.maxRedirect d t → idsOK S I cfg os seen t = true →
+      4 * cfg.maxRedirect + 4 ≤ d + os.length →
+      (life S I cfg os seen t).2.isSome = true ∧ (life S I cfg os seen t).1 + d ≤ 4 * cfg.maxRedirect + 4 := by
+  induction os with
+  | nil =>
+    intro seen d t h _ hlen
+    have := start_depth_le h
+    simp at hlen; omega
+  | cons o os ih =>
+    intro seen d t h hids hlen
+    simp only [idsOK, Bool.and_eq_true, Bool.or_eq_true, Bool.not_eq_true'] at hids
+    obtain ⟨_, hc⟩ := pass_progress S hS hg I hI cfg hdc o seen h hids.1
+    have hd := start_depth_le h
+    simp only [life]
+    rcases hc with hf | ⟨hf, hst⟩
+    · simp only [hf]
+      exact ⟨rfl, by simp; omega⟩
+    · simp only [hf, beq_self_eq_true, if_true]
+      have hids' : idsOK S I cfg os (pass S I cfg o seen t).seen (pass S I cfg o seen t).tree = true := by
+        rcases hids.2 with h' | h'
+        · rw [hf] at h'; cases h'
+        · exact h'
+      have := ih _ (d + 1) _ hst hids' (by simp at hlen; omega)
+      exact ⟨this.1, by omega⟩
+
+/-- a lone Fresh seed is in start-of-pass shape -/
+theorem start_seed (R : Nat) (i : Info) (hf : i.st = .fresh) (hr : i.redirects = 0) : Start R 0 (Tree.node i .nil) := by
+  refine ⟨rfl, by simp [Tree.idl, Tree.flatten, Forest.flatten], ?_, ?_, ?_⟩
+  · intro n j hj hp
+    cases n with
+    | zero => rfl
+    | succ m => simp [Tree.atLevel, Forest.atLevel] at hj
+  · intro j hj
+    simp only [Tree.atLevel, List.mem_singleton] at hj
+    rw [hj]; exact hf
+  · simp [Tree.rk, Forest.rk, rkNode, aLevel, hr]
+
 end Zeno.Model.Life
